@@ -628,7 +628,9 @@ class Eval:
             return None
         key = t["fn"].get("resolved_key") or t["fn"].get("key")
         cb = self.facts.bodies.get(key) if key else None
-        if cb is None and t["fn"].get("krate") == "nalgebra" and getattr(self.facts, "crate", None) == "varpro":
+        op_assign = cb is None and t["fn"].get("path", "").startswith("std::ops::") and t["fn"]["name"] in ("add_assign", "sub_assign", "mul_assign") \
+            and "nalgebra::Matrix" in (t["fn"].get("self_ty") or "")
+        if cb is None and (t["fn"].get("krate") == "nalgebra" or op_assign) and getattr(self.facts, "crate", None) == "varpro":
             # in-place operations of nalgebra that overwrite their target completely (they assert equal shapes first):
             # the target's new value is the corresponding pure expression of the other arguments
             nm = t["fn"]["name"]
@@ -685,6 +687,11 @@ class Eval:
                 return call("std::ops::Neg::neg", base)
             if ai == 0 and len(ops) == 2 and nm in ("scale_mut", "mul_assign"):
                 return call("std::ops::Mul::mul", base, ops[1])
+            if ai == 0 and len(ops) == 1 and nm == "try_inverse_mut":
+                # in-place inversion: when it reports success the matrix holds its inverse — the same value `try_inverse`
+                # returns as `Some` (on failure the content is unspecified; callers branch on the returned flag)
+                inv = ("call", "nalgebra::linalg::inverse::try_inverse", "nalgebra::Matrix", (base,), site)
+                return ("payload", inv, "ok", "0")
             if ai == 2 and len(ops) == 3 and nm in ("add_to", "sub_to"):
                 return call("std::ops::Add::add" if nm == "add_to" else "std::ops::Sub::sub", ops[0], ops[1])
             return None
